@@ -1,6 +1,6 @@
 /-
 Executable model of the EDF codec (net/edf/{encode,decode,register,init}.go) — the code AS IT IS after the
-`fix:` commits for D3/D4/D4b/D26 (see known_findings.json); behaviour the property forbids is mirrored, not
+`fix:` commits for D3/D4/D4b/D26/D31 (see known_findings.json); behaviour the property forbids is mirrored, not
 tidied (map with array-typed key, zero-width elements, 2^28-element array descriptors, ...).
 
   Ty      Go type algebra seen by the codec (reflect.Type): primitives, framework identifiers, time, error, any,
@@ -658,7 +658,7 @@ def dec (o : Opts) : Nat → Bool → Ty → Bytes → Res (Val × Bytes)
         | .ok (vs, r) => .ok (.list vs, r)
         | .err => .err
         | .panic => .panic
-    | .named _ (.map kt vt) =>                  -- register.go:584 (MakeMapWithSize before the count check)
+    | .named _ (.map kt vt) =>                  -- register.go:584
       match bs with
       | [] => .err
       | b :: r =>
